@@ -20,7 +20,7 @@ RULE = ('Seeded datetimes (boundary years 1, 99, 100, 999, 1000, 9999, ISO-week-
 ASSUMPTIONS = ['vf/render_iso.py produces the canonical ISO-8601 spelling (cross-checked each run against '
                'datetime.isoformat / fromisocalendar / iso_ref)', 'CPython datetime']
 MANIFEST = {
-    'technique': 'runtime round-trip monitor: independent ISO-8601 renderer -> real isoparse entry points -> exact comparison (plus the C20 soundness monitor on every call)',
+    'technique': 'runtime round-trip monitor: independent ISO-8601 renderer -> real isoparse entry points -> exact comparison (plus the C20 soundness monitor on every call); plus the same isoparse() calls through one parser from four free-running threads with injected yields (sys.monitoring), compared with the single-threaded outcomes',
     'level_text': 'Tens of thousands of seeded renderings covering the full form product are parsed by the real code through '
                   'all entry points and input types; expected values come from the renderer, never from the parser.  '
                   'Exploration: held on the renderings observed.',
